@@ -58,6 +58,8 @@ def check(ctx):
     repo = ctx.repo
     from . import generic as _gen
     _gen.language_traps(ctx, _gen.anchor_functions(repo, "C04"), "the property holds for every input, on every call")
+    _gen.argument_as_given(ctx, repo.fn("dataiter.data_frame.DataFrame.split"), repo.fn("dataiter.data_frame.DataFrame.split").vararg or "by", [("b",)],
+                           "split partitions by the columns it is given, whatever an earlier group_by() left behind")
     _gen.rank_orders_values(ctx, repo.fn("dataiter.vector.Vector.rank"), "one summary row per distinct key, ascending by the group columns")
     I = interp(repo)
     for r, t in (("IDX-2", "one key tuple for sort / unique / select; ascending; single stable ordering"),
